@@ -277,21 +277,35 @@ func (_this *Reader) readSmallULEB128(name string, maxValue uint64) uint64 {
 }
 
 func (_this *Reader) readIntoBuffer(count int) {
-	_this.expandBufferTo(count)
-	dst := _this.buffer[:count]
-	for len(dst) > 0 {
-		if bytesRead, err := _this.reader.Read(dst); err != nil {
+	// Grow the buffer as the data arrives instead of trusting the declared
+	// length, so that a short document cannot make us reserve gigabytes.
+	filled := 0
+	for filled < count {
+		if filled == len(_this.buffer) {
+			_this.growBufferToward(count)
+		}
+		end := len(_this.buffer)
+		if end > count {
+			end = count
+		}
+		if bytesRead, err := _this.reader.Read(_this.buffer[filled:end]); err != nil {
 			_this.unexpectedError(err)
 		} else {
-			dst = dst[bytesRead:]
+			filled += bytesRead
 		}
 	}
 }
 
-func (_this *Reader) expandBufferTo(minSize int) {
-	if len(_this.buffer) < minSize {
-		_this.buffer = make([]byte, minSize*2)
+// Double the buffer (keeping its contents), up to at most twice targetSize.
+func (_this *Reader) growBufferToward(targetSize int) {
+	newSize := len(_this.buffer) * 2
+	const maxInt = int(^uint(0) >> 1)
+	if targetSize <= maxInt/2 && newSize > targetSize*2 {
+		newSize = targetSize * 2
 	}
+	newBuffer := make([]byte, newSize)
+	copy(newBuffer, _this.buffer)
+	_this.buffer = newBuffer
 }
 
 func (_this *Reader) unexpectedError(err error) {
